@@ -108,11 +108,17 @@ def mc_axis(sublens_expr, emitlens):
                       [("MCSubLens", sublens_expr), ("MCEmitLens", tla.lit(set(emitlens))), seg, emit])
 
 
-def mc_naive():
-    # the reversed slice *without* the `-1 -> None` case: TLC must find the counterexample (sanity of RowsOK)
+def mc_naive(n=5):
+    # (1) the reversed slice *without* the `-1 -> None` case: TLC must find the counterexample (sanity of RowsOK)
+    # (2) directory histories: RetileOK for every image of up to n x n pixels (TS = 4) and every sub-image at the corners,
+    #     and the variant that keeps a stale file must FAIL it (sanity of DirShows)
     inv = ('NaiveRows == Built => \\A k \\in 1..AxisCount(c.a) : LET sg == AxisSegs(c.a)[k] r == [ty |-> sg.toff, h |-> sg.len] IN '
            'LET rows == RowIdxNaive("bottomup", r) IN Len(rows) = r.h /\\ \\A i \\in 1..r.h : rows[i] = FileRow("bottomup", r.ty + i - 1)')
-    return tla.module("MCNaive", ["StudyTiling"], [("MCSubLens", "{}"), inv])
+    lay = ('Layouts == {Tiling(w, h) : w \\in 1..%d, h \\in 1..%d} \\cup' % (n, n) + '  {SubTiling(Tiling(w, h), ix, iy, 2, 3) : w \\in {5, 6}, h \\in {5, 6}, '
+           'ix \\in {0, 3}, iy \\in {0, 2}}')
+    return tla.module("MCNaive", ["StudyTiling"], [("MCSubLens", "{}"), inv, lay,
+                                                   "ASSUME \\A t \\in Layouts : RetileOK(t)",
+                                                   "ASSUME \\E t \\in Layouts : ~RetileKeepingStaleOK(t)"])
 
 
 def mc_tables(crit, maxlen, extra, full2d, sub2d, big):
@@ -576,6 +582,8 @@ def reassembly_case(args):
         from toasty.pyramid import PyramidIO
         from toasty.study import StudyTiling, tile_study_image
         from toasty.builder import Builder
+        if kind == "retile":
+            return retile_case(case, mode, fmt, dims, seed, flavour, d, sink), case
         if kind == "sub":
             W, H, ix, iy, sw, sh = dims
             prow = T.pair[(W, H)]
@@ -673,6 +681,69 @@ def reassembly_case(args):
         shutil.rmtree(d, ignore_errors=True)
 
 
+RETILE_PLANS = (("full", "holes", "full"), ("holes", "full", "holes"), ("full", "holes", "holes"), ("holes", "holes", "full"))
+
+
+def retile_case(case, mode, fmt, dims, seed, flavour, d, sink):
+    """Directory history (spec: RetileOK): several images of ONE layout are tiled one after the other into the same
+    directory - fully defined ones and ones whose undefined regions cover whole tiles, partial tiles, single planes -
+    and after EVERY tiling the tiles on disk, reassembled, must show the image tiled last (TLC's offsets / file rows).
+    dims = (w, h): full images through tile_study_image / Builder; (W, H, ix, iy, sw, sh): a sub-image slot of a larger tiling."""
+    import contextlib
+    import numpy as np
+    from toasty.pyramid import PyramidIO
+    from toasty.study import StudyTiling, tile_study_image
+    from toasty.builder import Builder
+    res = []
+    sub = len(dims) == 6
+    if sub:
+        W, H, ix, iy, sw, sh = dims
+        prow = T.pair[(W, H)]
+        p2, lev = prow[0], prow[1]
+        gx0, gy0 = T.subaxis[(p2, W, ix, sw)][0], T.subaxis[(p2, H, iy, sh)][0]
+        pg = (prow[2], prow[3])
+    else:
+        w, h = dims
+        p2, lev, gx0, gy0, _cnt = T.pair[(w, h)]
+    out = os.path.join(d, "out")
+    plan = RETILE_PLANS[seed % len(RETILE_PLANS)]
+    tiling_obj = StudyTiling(W, H) if sub else None
+    for step, what in enumerate(plan):
+        scase = dict(case, step=step, plan=list(plan))
+        holes = what == "holes"
+        if sub:
+            parent = make_image(mode, W, H, seed + 31 * step, holes=pg if holes else None)
+            img = np.ascontiguousarray(parent[iy:iy + sh, ix:ix + sw])
+        else:
+            img = make_image(mode, w, h, seed + 31 * step, holes=(gx0, gy0) if holes else None)
+        with contextlib.redirect_stdout(sink), contextlib.redirect_stderr(sink):
+            try:
+                source = _mkimage(img.copy(), flavour, d)
+                img = np.array(source.asarray())
+                pio = PyramidIO(out, default_format=fmt)
+                if sub:
+                    tiling_obj.compute_for_subimage(ix, iy, sw, sh).tile_image(source, pio)
+                    template = pio.get_path_scheme() + "." + fmt
+                elif (seed + step) % 2:
+                    b = Builder(pio)
+                    b.tile_base_as_study(source)
+                    b.default_tiled_study_astrometry()
+                    b.write_index_rel_wtml()
+                    template, olev, _ft = wtml_template(out)
+                    if olev != lev:
+                        res.append(("V", "reassembly:retile:padded-size", "WTML TileLevels = %d for %s; depth of the smallest square is %d"
+                                    % (olev, scase, lev), scase))
+                else:
+                    tile_study_image(source, pio)
+                    template = pio.get_path_scheme() + "." + fmt
+            except Exception as e:  # noqa
+                res.append(("V", "reassembly:retile:raises", "tiling step %d of %s raised %r" % (step, scase, e), scase))
+                return res
+        mosaic, undefined, problems = reassemble(out, template, lev, fmt, mode)
+        res.extend(judge_mosaic("reassembly:retile", scase, mosaic, undefined, problems, img, gx0, gy0, mode))
+    return res
+
+
 # ------------------------------------------------------------------------------------------------
 
 def run(ctx):
@@ -715,7 +786,7 @@ def run(ctx):
                                  workers=3 if quick else 4, timeout=7200)))
     jobs.append(("axis", dict(module="MCAxis", extra={"MCAxis.tla": mc_axis(sublens, crit)}, cfg_text=AX_CFG % maxlen,
                               workers=3 if quick else 4, timeout=7200)))
-    jobs.append(("naive", dict(module="MCNaive", extra={"MCNaive.tla": mc_naive()}, cfg_text=NAIVE_CFG, workers=1, timeout=600,
+    jobs.append(("naive", dict(module="MCNaive", extra={"MCNaive.tla": mc_naive(5 if quick else 7)}, cfg_text=NAIVE_CFG, workers=1, timeout=600,
                                expect_violation=True, count=False)))
 
     def run_job(job):
@@ -885,6 +956,14 @@ def run(ctx):
             for rep_ in range(2 if quick else 8):
                 q = bigsubs[rng.randrange(len(bigsubs))]
                 cases.append(("sub", mode, fmt, q, seed + len(cases), ctx.scratch, fmt, True))
+        # directory histories: images of one layout tiled one after the other into ONE directory
+        rsizes = [(512, 512), (700, 600)] if quick else [(512, 512), (700, 600), (300, 513), (768, 1024), (257, 255)]
+        for (mode, fmt) in HOLE_MODE_FORMATS:
+            for dims in rsizes:
+                cases.append(("retile", mode, fmt, dims, seed + len(cases), ctx.scratch, fmt, True))
+            for rep_ in range(1 if quick else 4):
+                q = bigsubs[rng.randrange(len(bigsubs))]
+                cases.append(("retile", mode, fmt, q, seed + len(cases), ctx.scratch, fmt, True))
         if only is not None:
             cases = [c for c in cases if "path" in only and [c[0], c[1], c[2], list(c[3]), c[4], c[6], c[7]] ==
                      [only["path"], only["mode"], only["format"], list(only["dims"]), only["seed"], only.get("image_format", c[2]),
